@@ -900,6 +900,9 @@ func (p *Printer) loop(loop Loop) {
 		if loop.InPos.IsValid() {
 			p.spacedString(" in", Pos{})
 			p.wordJoin(loop.Items)
+			// A semicolon or ampersand written inside the items, as in
+			// "$(foo &)", does not end the list of words.
+			p.wroteSemi = false
 		} else {
 			// Keep a following comment apart from the name.
 			p.wantSpace = spaceRequired
